@@ -17,13 +17,13 @@ TEXT = {
     },
     "C01": {
         "technique": "runtime round-trip monitor: real encoder+decoder driven on generated maps, observation equality through public accessors, byte idempotence; ASan repeat",
-        "level_text": "exploration: 150k (quick) / 6M (thorough) random well-formed maps of every kind and construction route are written and read back; the two maps are compared through public accessors exactly as the statement lists (token sequence modulo exact consecutive duplicates, sources, names, contents, file, root, debug id, ignore list, section offsets/URLs, Hermes scopes), and ser(dec(ser(d))) == ser(d) bytewise for decoded d. A symmetric encoder/decoder error is invisible here by construction (C02/C03 cover it).",
+        "level_text": "exploration: 600k (quick) / 6M (thorough) random well-formed maps of every kind and construction route are written and read back; the two maps are compared through public accessors exactly as the statement lists (token sequence modulo exact consecutive duplicates, sources, names, contents, file, root, debug id, ignore list, section offsets/URLs, Hermes scopes), and ser(dec(ser(d))) == ser(d) bytewise for decoded d. A symmetric encoder/decoder error is invisible here by construction (C02/C03 cover it).",
         "design_ref": "DESIGN.md section 5, C01",
         "level_note": "trusted: harness/src/observe.rs (public accessors only), generators; no reference model is involved. Generated lines stay small (the format spends a byte per line).",
     },
     "C02": {
         "technique": "runtime differential monitor: independent v3 writer (own VLQ, cross-checked against the vlq crate) -> real decoder, decoded map compared with the abstract model",
-        "level_text": "exploration: 200k (quick) / 8M (thorough) documents produced from an abstract mapping model plus presentation by an encoder that shares no code with the crate are decoded through decode_slice, decode(reader) and SourceMap::from_slice; the model is the expected result (positions, running source/line/column/name state, arity, kind dispatch, null sources, integer names, debug_id precedence, sourceRoot join rule). Equal positions are compared as multisets.",
+        "level_text": "exploration: 1M (quick) / 8M (thorough) documents produced from an abstract mapping model plus presentation by an encoder that shares no code with the crate are decoded through decode_slice, decode(reader) and SourceMap::from_slice; the model is the expected result (positions, running source/line/column/name state, arity, kind dispatch, null sources, integer names, debug_id precedence, sourceRoot join rule). Equal positions are compared as multisets.",
         "design_ref": "DESIGN.md section 5, C02",
         "level_note": "trusted: reference VLQ/mappings/Metro writers (self-checked and cross-checked at start-up), serde_json string escaping. Only features the statement fixes are generated (no float names, no document with both dispatch keys).",
     },
@@ -35,13 +35,13 @@ TEXT = {
     },
     "C04": {
         "technique": "runtime monitor with linear-scan reference lookup and ordering invariants checked after every operation of random operation chains; exhaustive small grid",
-        "level_text": "exploration with an exhaustive sub-space: all insertion sequences of <= 4 tokens on a 2x3 grid x all grid queries (both constructors); 60k/3M random maps with up to 85% duplicated positions x a query sweep incl. u32::MAX; 8k/300k histories of 1..8 producing operations (rewrite, write+read, flatten, adjust_mappings, builder copy) with ordering, get_token/get_token_count agreement and the lookup sweep re-checked at every quiescent point.",
+        "level_text": "exploration with an exhaustive sub-space: all insertion sequences of <= 4 tokens on a 2x3 grid x all grid queries (both constructors); 1.2M/8M random maps with up to 85% duplicated positions x a query sweep incl. u32::MAX; 160k/1.5M histories of 1..8 producing operations (rewrite, write+read, flatten, adjust_mappings, builder copy) with ordering, get_token/get_token_count agreement and the lookup sweep re-checked at every quiescent point.",
         "design_ref": "DESIGN.md section 5, C04",
         "level_note": "trusted: 15-line reference scan over the map's own iteration order. No range tokens here (C07).",
     },
     "C06": {
         "technique": "fault injection into well-formed mappings strings at every site, strict reference decoder as filter, real decoder must return Err; plus index-resolution invariant on every Ok decode",
-        "level_text": "fault enumeration: for each of 3k (quick) / 250k (thorough) well-formed bases every applicable single fault of the classes named in the statement is injected at every site (each segment, each value, each index reference, each byte offset), then random combinations; the crate must reject every string the strict reference rejects, parse_vlq_segment must reject VLQ-level faults, and no accepted map may hold an unresolvable index.",
+        "level_text": "fault enumeration: for each of 120k (quick) / 1M (thorough) well-formed bases every applicable single fault of the classes named in the statement is injected at every site (each segment, each value, each index reference, each byte offset), then random combinations; the crate must reject every string the strict reference rejects, parse_vlq_segment must reject VLQ-level faults, and no accepted map may hold an unresolvable index.",
         "design_ref": "DESIGN.md section 5, C06",
         "level_note": "trusted: strict reference decoder. Which error variant is returned is not asserted. Negative generated columns are not in the statement's list and not asserted.",
     },
@@ -53,13 +53,13 @@ TEXT = {
     },
     "C08": {
         "technique": "runtime monitor: reference flatten and reference section lookup (model level) vs SourceMapIndex::flatten / lookup_token, plus index-vs-flattened differential, on generated index maps inside the statement's precondition",
-        "level_text": "exploration: 60k (quick) / 3M (thorough) index maps inside the precondition; flatten() must equal the reference flatten as a multiset per position (line shift always, column shift on a section's first line only, names/range flags kept, recursion through nested indexes, Hermes sections), first-seen contents and ignore membership per source name, Err exactly when a section is unresolved; index lookups must equal the reference lookup in the section with the greatest offset not after the position, and agree with the flattened map wherever they find a token.",
+        "level_text": "exploration: 120k (quick) / 3M (thorough) index maps inside the precondition; flatten() must equal the reference flatten as a multiset per position (line shift always, column shift on a section's first line only, names/range flags kept, recursion through nested indexes, Hermes sections), first-seen contents and ignore membership per source name, Err exactly when a section is unresolved; index lookups must equal the reference lookup in the section with the greatest offset not after the position, and agree with the flattened map wherever they find a token.",
         "design_ref": "DESIGN.md section 5, C08",
         "level_note": "trusted: model-level reference flatten/lookup (harness/src/props/c08.rs). Offsets near 2^32 are C05's business, not asserted here.",
     },
     "C09": {
         "technique": 'runtime monitor: token-by-token comparison before/after rewrite through public accessors over generated maps x option sets; Hermes scopes compared per token',
-        "level_text": 'exploration: 150k / 5M (map, options) pairs; after rewrite the token multiset (position, stripped source name, original position, name or none, range flag, Hermes scope) must equal the expected one, sources/names must contain nothing unreferenced and no unexcused duplicates, contents must follow the source names exactly when kept, file and debug id preserved.',
+        "level_text": 'exploration: 1.5M / 8M (map, options) pairs; after rewrite the token multiset (position, stripped source name, original position, name or none, range flag, Hermes scope) must equal the expected one, sources/names must contain nothing unreferenced and no unexcused duplicates, contents must follow the source names exactly when kept, file and debug id preserved.',
         "design_ref": "DESIGN.md section 5, C09",
         "level_note": "trusted: the prefix rule as documented (first matching prefix, normalised to end in '/'). '~' is only checked as 'suffix at a / boundary'. Hermes inputs have pairwise distinct joined source names.",
     },
@@ -71,19 +71,19 @@ TEXT = {
     },
     "C12": {
         "technique": 'differential runtime monitor with fault enumeration: decode(reader under an enumerated chunk schedule) vs decode_slice vs decode_data_url on valid, truncated and corrupted documents behind enumerated junk headers; reference header rule arbitrates',
-        "level_text": 'fault enumeration: for 2.5k (quick) / 120k (thorough) base documents every header of a 24-entry catalogue and every schedule of the catalogue (incl. a two-chunk boundary at every offset across the header and the first 16 bytes) is applied to the intact document, samples of them to every truncation (every length for small documents) and to single-byte corruptions; outcomes (Err, or Ok with equal observation) must agree between reader and slice, is_sourcemap between reader and slice, a well-formed header must be skipped, a bare CR rejected on both paths, and the base64 data URL (with and without charset parameter) must decode like its payload.',
+        "level_text": 'fault enumeration: for 8k (quick) / 120k (thorough) base documents every header of a 27-entry catalogue and every schedule of the catalogue (incl. a two-chunk boundary at every offset across the header and the first 16 bytes) is applied to the intact document, samples of them to every truncation (every length for small documents) and to single-byte corruptions; outcomes (Err, or Ok with equal observation) must agree between reader and slice, is_sourcemap between reader and slice, a well-formed header must be skipped, a bare CR rejected on both paths, and the base64 data URL (with and without charset parameter) must decode like its payload.',
         "design_ref": "DESIGN.md section 5, C12",
         "level_note": "trusted: the 15-line reference header rule, own base64 writer, observation equality. serde_json's reader and slice front ends are part of the system under test here.",
     },
     "C13": {
         "technique": 'runtime model-based monitor: ~60-line sequential interning/join model checked against builder return values and the finished map, and against a map after every prefix of setter / save+load histories',
-        "level_text": 'exploration over histories: 200k (quick) / 6M (thorough) short histories; builder ids must be first-seen ids, every added token must resolve to the strings it was added with (joined with the root), the finished map must report what was set; on maps, after every operation get_source(i) must equal the raw name joined with the current root, the serialised document must carry raw names + root, and repeated save/load must not prefix twice.',
+        "level_text": 'exploration over histories: 1.6M (quick) / 8M (thorough) short histories; builder ids must be first-seen ids, every added token must resolve to the strings it was added with (joined with the root), the finished map must report what was set; on maps, after every operation get_source(i) must equal the raw name joined with the current root, the serialised document must carry raw names + root, and repeated save/load must not prefix twice.',
         "design_ref": "DESIGN.md section 5, C13",
         "level_note": 'trusted: the sequential model. Only in-range ids are passed to id-taking calls (out-of-range ids panic by documented contract).',
     },
     "C14": {
         "technique": 'runtime monitor: reference Metro function-map encoder + reference enclosing-function lookup vs get_scope_for_token / get_original_function_name on generated Hermes documents, incl. broken function maps and a write+read cycle',
-        "level_text": "exploration: 100k (quick) / 4M (thorough) Hermes documents; every token's scope and ~100 bytecode offsets per map must equal the reference reading (last entry at or before (line+1, column)), nothing for sources without / with unparsable function maps or positions before all entries or name indices out of range, nothing for line != 0 through DecodedMap, decode must succeed although a function map is unparsable, and all answers must survive to_writer + decode.",
+        "level_text": "exploration: 800k (quick) / 6M (thorough) Hermes documents; every token's scope and ~100 bytecode offsets per map must equal the reference reading (last entry at or before (line+1, column)), nothing for sources without / with unparsable function maps or positions before all entries or name indices out of range, nothing for line != 0 through DecodedMap, decode must succeed although a function map is unparsable, and all answers must survive to_writer + decode.",
         "design_ref": "DESIGN.md section 5, C14",
         "level_note": 'trusted: harness/src/reference/metro.rs (self-checked by round trip).',
     },
@@ -95,7 +95,7 @@ TEXT = {
     },
     "C16": {
         "technique": 'runtime schedule control: real threads on the real SourceView, interleaved at every lock/atomic operation through the verif_hooks wrappers (DFS with preemption bound + random schedules), free-running stress, Miri many-seeds and TSan; oracle = sequential answers, no panic, no deadlock, view usable afterwards',
-        "level_text": "exploration over schedules: 2 threads x 1 call for every pair of calls on 6 texts with all schedules of <= 3 preemptions (quick) / all schedules (thorough); sampled 2x2 and 3x1 scenarios with bounded enumeration; random schedules for up to 4 threads x 3 calls; free-running rounds of 2..8 threads; a Miri shard (4 seeds x 16 shards quick, weak-memory emulation, data-race detection, Stacked Borrows on the shared 'static slices) and a TSan build (thorough). Every call must return the reference answer, nothing may panic or deadlock, and a probe caller must get correct answers afterwards. Evidence records schedules executed, distinct schedules, distinct yield-point vectors and where preemptions happened.",
+        "level_text": "exploration over schedules: 2 threads x 1 call for every pair of calls on 6 texts with all schedules of <= 3 preemptions (quick) / all schedules up to a cap of 20000 per scenario (thorough); sampled 2x2 and 3x1 scenarios with bounded enumeration; random schedules for up to 4 threads x 3 calls; free-running rounds of 2..8 threads; a Miri shard (8 seeds x 16 shards quick, 64 seeds thorough, weak-memory emulation, data-race detection, Stacked Borrows on the shared 'static slices) and a TSan build (thorough). Every call must return the reference answer, nothing may panic or deadlock, and a probe caller must get correct answers afterwards. Evidence records schedules executed, distinct schedules, distinct yield-point vectors and where preemptions happened.",
         "design_ref": "DESIGN.md section 5, C16",
         "level_note": 'trusted: the controller (harness/src/sched.rs) and the hook wrappers in the crate (they delegate to the real std Mutex/AtomicUsize). A schedule is decided by logical steps; the only wall-clock element is a 60 s no-progress guard.',
     },
@@ -113,7 +113,7 @@ TEXT = {
     },
     "C18": {
         "technique": 'runtime monitor: reference line scanner vs locate_sourcemap_reference(_slice) on generated files (slice and chunked reader); own data URLs decoded back and rediscovered from an embedded comment; detection predicate on every serialised map kind',
-        "level_text": 'exploration: 300k (quick) / 10M (thorough) generated files and 60k / 2M maps; discovery must return the first line that begins with one of the two markers with the URL trimmed and the legacy flag right, nothing for look-alikes; for every regular map decode_data_url(to_data_url(m)) must be Ok and observation-equal to m, also after being embedded in a //# sourceMappingURL comment, located and loaded through get_embedded_sourcemap; is_sourcemap_slice must accept every serialised regular, index and Hermes map.',
+        "level_text": 'exploration: 3M (quick) / 20M (thorough) generated files and 300k / 3M maps; discovery must return the first line that begins with one of the two markers with the URL trimmed and the legacy flag right, nothing for look-alikes; for every regular map decode_data_url(to_data_url(m)) must be Ok and observation-equal to m, also after being embedded in a //# sourceMappingURL comment, located and loaded through get_embedded_sourcemap; is_sourcemap_slice must accept every serialised regular, index and Hermes map.',
         "design_ref": "DESIGN.md section 5, C18",
         "level_note": 'trusted: 10-line reference scanner; observation equality as in C01.',
     },
